@@ -7,6 +7,9 @@ props = [json.loads(l) for l in open(os.path.join(ROOT, 'properties.jsonl'))]
 
 # id -> (technique, level text, level note, design ref)
 CHECKS = {
+ 'C12': ('runtime differential monitor: reflection-enumerated single-field mutations of real transactions/blocks with before/after comparison of every ID, hash and signature hash against a rule table; collision table of all derived IDs; era separation; block-binding via ValidateBlock',
+         'For the transactions and blocks of generated histories every exported leaf field is mutated and ID, derived IDs, FullHash, MerkleLeafHash and all signature hashes are compared before/after (changed iff effect-bearing, unchanged for the exempt witness/signature/parent-content/proof fields); all derived IDs and purpose-specific signature hashes go into one collision table labelled by kind and index; v1 signature hashes are compared across replay-prefix eras; block content mutations that keep the header must change Block.ID() or be rejected by ValidateBlock.',
+         'Trusted: the rule table of exempt fields (taken from the statement). Hash preimage layouts themselves are C11\'s subject.', '§5 C12'),
  'C08': ('runtime monitor: boundary-table scenarios on real chains - the rule-limited transaction is rebuilt per tip and offered to ValidateBlock at every height across the bound; verdict pattern compared with the independently computed bound',
          'For generated networks (all families, maturity delays 0-5) and 20 height/time rules (output/claim maturity v1+v2, unlock-condition and signature timelocks, above/after/legacy-uc policies against parent height and median time, v1 window start at formation/revision/proof, v2 proof height at formation/revision/proof/expiration, v1 until require height, v2 from allow height) the transaction valid except for the rule is offered at each height from before to after the bound; both sides of every flip are required; a wrong-side rejection must be the rule\'s own error, else inconclusive.',
          'Trusted: the scenario\'s computation of each bound from network parameters and recorded heights; harness median.', '§5 C08'),
